@@ -1195,3 +1195,213 @@ fn value_mismatch(rc: &Class, cc: &Class, notes: &mut Vec<&'static str>) -> Opti
         (a, b) => Some(format!("kind differs: Rust {:?}, C {:?}", a, b)),
     }
 }
+
+// ------------------------------------------------------------------------------------------
+// struct layouts: the `#[repr(C)]` structs that cross the boundary by pointer, field by field
+
+/// One field of a C struct: a plain declarator or an anonymous nested struct.
+#[derive(Clone, Debug)]
+pub enum CFieldTy {
+    Decl(String),
+    Nested(Vec<CField>),
+}
+
+#[derive(Clone, Debug)]
+pub struct CField {
+    pub name: String,
+    pub ty: CFieldTy,
+}
+
+#[derive(Clone, Debug)]
+pub struct StructPair {
+    pub rust_name: &'static str,
+    pub c_name: &'static str,
+    pub rust_file: String,
+    pub c_file: String,
+    /// (field name, type text)
+    pub rust_fields: Vec<(String, String)>,
+    pub c_fields: Vec<CField>,
+}
+
+/// (Rust struct, C struct) pairs whose fields are compared.  Opaque Rust stand-ins (`_data: ()`)
+/// and structs with unions are not listed.
+pub const STRUCT_PAIRS: &[(&str, &str)] = &[
+    ("CRawBuffer", "rawElementsBuffer"),
+    ("CRawOutput", "rawElementsOutput"),
+    ("CRawInput", "rawElementsInput"),
+    ("CRawTransaction", "rawElementsTransaction"),
+    ("CRawTapEnv", "rawElementsTapEnv"),
+    ("CTxEnv", "txEnv"),
+    ("CFrameItem", "frameItem"),
+    ("CBitstream", "bitstream"),
+    ("CBitstring", "bitstring"),
+    ("CCombinatorCounters", "combinator_counters"),
+    ("CSha256Midstate", "sha256_midstate"),
+];
+
+/// Fields of `struct NAME<..> { .. }` in stripped Rust source.
+pub fn rust_struct_fields(t: &[u8], name: &str) -> Option<Vec<(String, String)>> {
+    let text = text_of(t);
+    let mut from = 0;
+    while let Some(p) = text[from..].find("struct ") {
+        let at = from + p + 7;
+        from = at;
+        let rest = &text[at..];
+        let end = rest.find(|c: char| !(c.is_alphanumeric() || c == '_')).unwrap_or(rest.len());
+        if &rest[..end] != name {
+            continue;
+        }
+        let open = at + rest.find('{')?;
+        if text[at + end..open].contains(';') {
+            continue;
+        }
+        let close = matching(t, open)?;
+        let body = &text[open + 1..close];
+        let mut fields = vec![];
+        for part in split_top(body, b',') {
+            let part = squeeze(&part);
+            if part.is_empty() {
+                continue;
+            }
+            // drop attributes in front of the field
+            let mut s = part.as_str();
+            while s.starts_with("#[") {
+                let e = s.find(']')?;
+                s = s[e + 1..].trim_start();
+            }
+            let s = strip_vis(s);
+            let (n, ty) = s.split_once(':')?;
+            fields.push((n.trim().to_string(), ty.trim().to_string()));
+        }
+        return Some(fields);
+    }
+    None
+}
+
+fn c_fields_of(body: &str) -> Option<Vec<CField>> {
+    let mut fields = vec![];
+    for part in split_top(body, b';') {
+        let part = squeeze(&part);
+        if part.is_empty() {
+            continue;
+        }
+        if let Some(open) = part.find('{') {
+            let head = part[..open].trim();
+            if head != "struct" {
+                return None; // unions, named inner structs: not handled
+            }
+            let close = part.rfind('}')?;
+            let name = part[close + 1..].trim().to_string();
+            fields.push(CField { name, ty: CFieldTy::Nested(c_fields_of(&part[open + 1..close])?) });
+        } else if part.contains(',') {
+            // `size_t a, b, c;` (only the plain form without declarator punctuation)
+            if part.contains('*') || part.contains('[') || part.contains('(') {
+                return None;
+            }
+            let names: Vec<String> = split_top(&part, b',');
+            let first = names[0].trim().to_string();
+            let cut = first.rfind(|c: char| !(c.is_alphanumeric() || c == '_'))?;
+            let ty = first[..cut].trim().to_string();
+            fields.push(CField { name: first[cut + 1..].to_string(), ty: CFieldTy::Decl(first.clone()) });
+            for n in &names[1..] {
+                let n = n.trim();
+                fields.push(CField { name: n.to_string(), ty: CFieldTy::Decl(format!("{} {}", ty, n)) });
+            }
+        } else {
+            let name: String = part.chars().rev().take_while(|c| c.is_alphanumeric() || *c == '_').collect::<String>().chars().rev().collect();
+            fields.push(CField { name, ty: CFieldTy::Decl(part) });
+        }
+    }
+    Some(fields)
+}
+
+/// Fields of `typedef struct NAME { .. } NAME;` (or `struct NAME { .. };`) in stripped C source.
+pub fn c_struct_fields(t: &[u8], name: &str) -> Option<Vec<CField>> {
+    let text = text_of(t);
+    let pat = format!("struct {}", name);
+    let mut from = 0;
+    while let Some(p) = text[from..].find(&pat) {
+        let at = from + p + pat.len();
+        from = at;
+        let i = skip_ws(t, at);
+        if i >= t.len() || t[i] != b'{' {
+            continue;
+        }
+        if at < t.len() && is_ident(t[at]) {
+            continue;
+        }
+        let close = matching(t, i)?;
+        return c_fields_of(&text[i + 1..close]);
+    }
+    None
+}
+
+pub fn load_struct_pairs() -> Result<Vec<StructPair>, String> {
+    let mut rust_files = vec![];
+    walk(Path::new(RUST_ROOT), &["rs"], &mut rust_files).map_err(|e| format!("{}: {}", RUST_ROOT, e))?;
+    let mut c_files = vec![];
+    walk(Path::new(C_ROOT), &["h", "c"], &mut c_files).map_err(|e| format!("{}: {}", C_ROOT, e))?;
+    let rust: Vec<(String, Vec<u8>)> = rust_files.iter().filter_map(|f| std::fs::read(f).ok().map(|raw| (f.display().to_string(), strip_comments(&raw, true, false)))).collect();
+    let c: Vec<(String, Vec<u8>)> = c_files.iter().filter_map(|f| std::fs::read(f).ok().map(|raw| (f.display().to_string(), strip_comments(&raw, false, true)))).collect();
+    let mut out = vec![];
+    for (rn, cn) in STRUCT_PAIRS {
+        let r = rust.iter().find_map(|(f, t)| rust_struct_fields(t, rn).map(|x| (f.clone(), x)));
+        // a struct name may be defined once per chain (bitcoin/txEnv.h, elements/txEnv.h): take
+        // the definition of the chain the Rust file belongs to, and nothing if that is not clear
+        let mut cands: Vec<(String, Vec<CField>)> = c.iter().filter_map(|(f, t)| c_struct_fields(t, cn).map(|x| (f.clone(), x))).collect();
+        if cands.len() > 1 {
+            let chain = if r.as_ref().map(|(f, _)| f.contains("elements")).unwrap_or(false) { "/elements/" } else { "/bitcoin/" };
+            cands.retain(|(f, _)| f.contains(chain));
+        }
+        let cc = if cands.len() == 1 { cands.pop() } else { None };
+        if let (Some((rf, rfields)), Some((cf, cfields))) = (r, cc) {
+            out.push(StructPair { rust_name: rn, c_name: cn, rust_file: rf, c_file: cf, rust_fields: rfields, c_fields: cfields });
+        }
+    }
+    Ok(out)
+}
+
+/// Rust struct by name, anywhere under the Rust root (for nested by-value struct fields).
+pub fn find_rust_struct(name: &str) -> Option<Vec<(String, String)>> {
+    let mut rust_files = vec![];
+    walk(Path::new(RUST_ROOT), &["rs"], &mut rust_files).ok()?;
+    rust_files.iter().find_map(|f| std::fs::read(f).ok().and_then(|raw| rust_struct_fields(&strip_comments(&raw, true, false), name)))
+}
+
+/// `Option<&T>` / `Option<NonNull<T>>`-free, lifetime-free rendering of a Rust field type.
+pub fn normalize_rust_field_type(ty: &str) -> String {
+    let mut s = ty.trim().to_string();
+    if let Some(inner) = s.strip_prefix("Option<").and_then(|r| r.strip_suffix('>')) {
+        s = inner.trim().to_string();
+    }
+    // generic lifetime arguments of a named type: `CRawInput<'raw>` -> `CRawInput`
+    while let Some(p) = s.find("<'") {
+        match s[p..].find('>') {
+            Some(e) => s.replace_range(p..p + e + 1, ""),
+            None => break,
+        }
+    }
+    s
+}
+
+fn norm_name(s: &str) -> String {
+    s.chars().filter(|c| *c != '_').map(|c| c.to_ascii_lowercase()).collect()
+}
+
+fn subsequence(short: &str, long: &str) -> bool {
+    let mut it = long.chars();
+    short.chars().all(|c| it.any(|d| d == c))
+}
+
+/// Do the two field names plausibly denote the same field (one is an abbreviation of the other)?
+pub fn names_related(rust: &str, c: &str) -> bool {
+    let (a, b) = (norm_name(rust), norm_name(c));
+    if a.is_empty() || b.is_empty() {
+        return false;
+    }
+    if a.len() <= b.len() {
+        subsequence(&a, &b)
+    } else {
+        subsequence(&b, &a)
+    }
+}
